@@ -68,7 +68,7 @@ def _package_script(name, salt, tools, weak=()):
 def gen_project(rng, nmin=3, nmax=7, features=None):
     """features: set of enabled generator features (swarm style)."""
     allf = ["import", "checkoutscript", "vars", "provideVars", "tools", "classes", "provideDeps",
-            "weak", "depenv", "multi", "shared", "nobuild", "diamond", "forward", "include"]
+            "weak", "depenv", "multi", "shared", "nobuild", "diamond", "forward", "include", "twins"]
     if features is None:
         features = {f for f in allf if rng.random() < 0.6}
     n = rng.randint(nmin, nmax)
@@ -238,6 +238,24 @@ def gen_project(rng, nmin=3, nmax=7, features=None):
             r["buildTools"] = sorted(set(rng.sample(vis, rng.randint(0, len(vis)))))
             if rng.random() < 0.3:
                 r["packageTools"] = sorted(set(rng.sample(vis, rng.randint(0, len(vis)))))
+    if "twins" in features and n >= 3:
+        # two recipes with identical content: equal Variant-Ids (and Build-Ids) under different
+        # recipe names -- separate workspaces in develop mode, one artifact in an archive
+        cands = [x for x in base_names[1:] if not model["recipes"][x]["provideTools"]]
+        if cands:
+            x = rng.choice(cands)
+            t = "tw" + x
+            tw = copy.deepcopy(model["recipes"][x])
+            tw["label"] = x
+            tw["shared"] = False
+            model["recipes"][t] = tw
+            model["order"].insert(model["order"].index(x) + 1, t)
+            # whoever uses the original may use the twin as well; root always does
+            for user in ["root"] + [u for u in base_names[1:] if u != x and rng.random() < 0.3
+                                    and any(d["name"] == x for d in model["recipes"][u]["depends"])]:
+                ur = model["recipes"][user]
+                if not any(d["name"] == t for d in ur["depends"]):
+                    ur["depends"].insert(rng.randint(0, len(ur["depends"])), {"name": t, "use": ["result", "deps"]})
     return model
 
 def _leaf(rng):
@@ -283,7 +301,10 @@ def gen_valid_project(rng, tries=6, **kw):
 def _yaml_recipe(name, r, model):
     import yaml
     d = {}
-    if name == "root":
+    rname = name
+    # a twin recipe has another name but, to the letter, the content of its original
+    name = r.get("label", name)
+    if rname == "root":
         d["root"] = True
     if r["inherit"]:
         d["inherit"] = list(r["inherit"])
